@@ -47,6 +47,9 @@ Step(ev, s) ==
     [] ev.op = "onConnected" -> IF s.es[ev.e] /\ s.inrun /\ ~MustReturn(s)
                                 THEN { Discharge(IF ev.c \in Cs THEN [s EXCEPT !.cl[ev.c] = [InitCl EXCEPT !.alive = TRUE]] ELSE s, 20 + ev.e) } ELSE {}
     [] ev.op = "onAbolished" -> IF s.es[ev.e] /\ s.inrun /\ ~MustReturn(s) THEN { Discharge(s, 20 + ev.e) } ELSE {}
+    \* Server::clear(): everything registered is gone (no callback for any of it afterwards); a pending interrupt request
+    \* may or may not survive (the header is silent; the code drops it)
+    [] ev.op = "clear" -> IF s.inrun THEN {} ELSE { [Init0 EXCEPT !.irq = i] : i \in {s.irq, FALSE} }
     [] ev.op = "pair" -> IF ev.ok THEN { [s EXCEPT !.cl[ev.c] = [InitCl EXCEPT !.alive = TRUE]] } ELSE { s }
     [] ev.op = "remove" -> { Discharge([s EXCEPT !.cl[ev.c].alive = FALSE, !.cl[ev.c].closing = FALSE], ev.c) }
     [] ev.op \in {"suspend", "resume"} -> { Discharge([s EXCEPT !.cl[ev.c].susp = ev.susp], ev.c) }
@@ -80,6 +83,9 @@ Step(ev, s) ==
             /\ s.oblig = {}
             /\ \A c \in Cs : ~(s.cl[c].alive /\ s.cl[c].closing)
             /\ ev.timeout >= 0
+            \* a pending interrupt request is effective at once: the operating system is asked with the wake-up channel
+            \* registered, so the very next poll reports it (run() does not sit out an unrelated time-out first)
+            /\ (s.irq => ev.irq)
          THEN { [s EXCEPT !.wake = (ev.irq /\ s.irq),      \* (a stale wake-up without a pending request is not a reason to return)
                           !.oblig = { <<ev.ready[i][1], ev.ready[i][2]>> : i \in { j \in DOMAIN ev.ready : Registered(s, ev.ready[j]) } }] }
          ELSE {}
